@@ -64,6 +64,7 @@ fn main() {
             budget: if o.thorough() { 26 } else { 18 },
             max_depth: if o.thorough() { 2 + (k % 4) as u32 } else { 1 + (k % 3) as u32 },
             errors: true,
+            defined: vec![],
         };
         let lines = g.script();
         let surface = g.rng.next() % 1000;
